@@ -313,7 +313,9 @@ struct SimRunner : public CommandRunner {
           c = g != st.regen.end() ? g->second : (cur ? cur->content : "");
         } else c = OutputContent(r, o);
         const VFile* cur = disk->Get(o);
-        if (st.restat && cur && cur->content == c) { kept.push(o); continue; }
+        // a command served by a dyndep file that declares it restat behaves like a restat command
+        bool restat_like = st.restat || (st.dd && !Directives(r.primary_content, "#ddrestat").empty());
+        if (restat_like && cur && cur->content == c) { kept.push(o); continue; }
         if (!disk->Put(o, c)) { status = 1; output += "sim: cannot write " + o + "\n"; ev.set("write_failed", o); break; }
         wrote.push(o);
       }
